@@ -115,8 +115,20 @@ def run_ext_case(prop, sd, idx):
     changed = None
     if b1['vals']:
         changed = rng.choice(list(b1['vals']))
+        if isinstance(obj, functools.partial) and obj.keywords and rng.random() < 0.7:
+            changed = rng.choice(list(obj.keywords))     # a parameter the partial pre-sets
+            b0['vals'][changed] = obj.keywords[changed]  # ... left at the partial's value in the first call
+            b1['vals'][changed] = obj.keywords[changed]
+            forms0 = kc.call_forms(rng, sig, b0, 3)
         old = b1['vals'][changed]
         new = rng.choice([v for v in kc.VALUES if v != old])
+        if isinstance(obj, functools.partial) and changed in (obj.keywords or {}):
+            try:
+                under = inspect.signature(obj.func).parameters[changed].default
+                if under is not inspect.Parameter.empty and under != old and rng.random() < 0.7:
+                    new = under                          # ... and set to the underlying function's own default in the second
+            except Exception:
+                pass
         b1['vals'][changed] = kc.fresh(new)
     forms1 = kc.call_forms(rng, sig, b1, 2) if changed else []
     for klabel, ctor in keymaps():
@@ -141,7 +153,7 @@ def run_ext_case(prop, sd, idx):
                     hits.append({'prop': prop, 'keymap': klabel,
                                  'what': 'on %s the calls %s and %s bind identically but get different keys under %s: %r vs %r'
                                          % (label, kc_show(keys0[0][0], keys0[0][1]), kc_show(a, k), klabel, keys0[0][2], key),
-                                 'calls': [[keys0[0][0], keys0[0][1]], [a, k]]})
+                                 'calls': [[keys0[0][0], keys0[0][1]], [a, k]], 'keys': [keys0[0][2], key]})
         if prop in ('C10', 'C11') and keys0 and forms1:
             a, k = forms1[0]
             if kc.py_bind(obj, a, k) is not None:
